@@ -113,7 +113,7 @@ def build(key, variant, i):
     qual = key.split(':')[1]
     if 'd' not in i:
         raise ValueError('model has no finite duration list (n too large or missing)')
-    mode = 'vod' if variant.startswith('vod') else 'live'
+    mode = 'vod' if variant.startswith(('vod', 'fixups')) else 'live'
     rep, ref = make_rep(i, mode)
     env = spec_env(rep, ref, i)
     env['self'] = rep
@@ -171,6 +171,9 @@ def build_gms(variant, i, mode, rep, ref, env, msi=None, setup=None):
     import io
     import flask
     from types import SimpleNamespace as NS
+    fixups = variant.startswith('fixups')
+    if fixups:
+        variant = 'vod-number-video'
     kind = variant.split('-')[1]
     content_type = variant.split('-')[2]
     with_sidx = '-nosidx' not in variant
@@ -206,6 +209,9 @@ def build_gms(variant, i, mode, rep, ref, env, msi=None, setup=None):
             traf = self.moof.traf
             state['encoded'] = NS(sequence_number=self.moof.mfhd.sequence_number,
                                   tfdt=traf.tfdt.base_media_decode_time, has_sidx=hasattr(self, 'sidx'))
+            if fixups:
+                state['encoded'].__dict__.update(children=list(self.children), tfhd_base=traf.tfhd.base_data_offset,
+                                                 saio_cleared=traf.saio.offsets is None)
             if not has_tfdt:
                 state['encoded'].__dict__.update(order=list(traf.order), trun_flags=traf.trun.flags,
                                                  tfhd_base=traf.tfhd.base_data_offset, tfdt_version=traf.tfdt.version)
@@ -214,25 +220,36 @@ def build_gms(variant, i, mode, rep, ref, env, msi=None, setup=None):
     def load_fragment(media_file, mod, options, parse_samples=False):
         state['mod'] = mod
         traf = NS(tfdt=NS(base_media_decode_time=TF(mod)), find_child=lambda name: None) if has_tfdt else Traf()
+        if fixups:
+            traf.tfhd = NS(base_data_offset=int(i.get('stored_base_data_offset', 0)))
+            traf.saio, traf.senc = NS(offsets=[77]), NS()
+            traf.find_child = lambda name: getattr(traf, name, None)
         a = Atom(moof=NS(mfhd=NS(sequence_number=int(i.get('stored_seq', 0))), traf=traf))
+        if fixups:
+            a.children = ['styp', 'sidx', 'moof', 'mdat']
+            a.index = lambda name: a.children.index(name)
         if with_sidx:
             a.sidx = object()
         return a
     app = flask.Flask('replay')
+    evgens = [NS(create_emsg_boxes=lambda **kw: ['emsg'] if i.get('has_event') else [])] if fixups else []
     me = NS(check_for_synthetic_http_error=lambda *a: None, load_fragment=load_fragment,
+            update_traf_if_required=lambda o, t: bool(i.get('traf_modified_by_drm')),
             get_http_range=lambda n: (None, None, 200, {}),
             calculate_media_segment_index=lambda m, r, t, n_, t_: msi(None, m, r, t, n_, t_))
     adp = lambda **kw: NS(content_type=kw['content_type'], representations=[], compute_av_values=lambda: None,
                           set_dash_timing=lambda t: None)
     fn = extract_method('dashlive/server/requesthandler/media_requests.py', 'MediaRequestBase', 'generate_media_segment', {
         'flask': flask, 'io': io, 'AdaptationSet': adp, 'DashTiming': lambda now, ref_, options: rep._timing,
-        'UTC': lambda: datetime.timezone.utc, 'EventFactory': NS(create_event_generators=lambda o: []),
+        'UTC': lambda: datetime.timezone.utc, 'EventFactory': NS(create_event_generators=lambda o: evgens),
         'content_type_to_mime_type': lambda a, b: 'video/mp4', 'add_allowed_origins': lambda h: None,
         'mp4': real_mp4, 'models': NS(Stream=object, MediaFile=object),
         'OptionsContainer': object})
     media_file = NS(representation=rep, content_type=content_type, track_id=1, name='x', codec_fourcc='avc1')
     options = NS(mode=mode, segmentTimeline=(kind == 'time'), videoCorruption=None)
-    rep.encrypted = False
+    rep.encrypted = fixups
+    env.update(has_event=bool(i.get('has_event')), traf_modified_by_drm=bool(i.get('traf_modified_by_drm')),
+               stored_base_data_offset=int(i.get('stored_base_data_offset', 0)))
     env.update(seg_num=num, seg_time=tim, TF=TF, mode=mode, trun_flags=int(i.get('trun_flags', 0)),
                order_is=lambda x, *names: list(x) == list(names))
 
